@@ -710,7 +710,7 @@ func drawSetterOp(t *rapid.T, p Prof) setterOp {
 	o := setterOp{Claim: cl}
 	switch cl {
 	case CClientID:
-		o.I32 = genInt32.Draw(t, "cid")
+		o.I32 = rapid.OneOf(rapid.SampledFrom([]int32{0, 1, -1, 2147483647, -2147483648, -2147483647}), genInt32).Draw(t, "cid")
 	case CLifecycle:
 		if valid {
 			o.U16 = drawValidLifecycle(t)
